@@ -1,15 +1,601 @@
 //go:build verif
 
-// Harness for C15: drives the real db backends and the Lean model on the same inputs.
+// Harness for C15: runs identical op sequences on db/memory, db/pebble (v1), db/pebblev2 and on
+// the Lean models (`Mem` = transcription of db/memory, `Spec` = the contract) and compares every
+// output. Model-vs-memory differences are correspondence mismatches; a backend that differs from
+// the contract on a sequence is a property violation with the (shrunk) sequence as replay.
 package main
 
 import (
 	"bytes"
+	"encoding/json"
 	"fmt"
+	"os"
+	"strings"
+	"sync"
 
 	"github.com/NethermindEth/juno/db/dbutils"
 	"verif/harness/lib"
 )
+
+// ---- known ways in which a backend leaves the contract (each has its own stable Sig) ----------
+const (
+	sigNilUB     = "memory-iterator-nil-upper-bound-yields-nothing"
+	sigPrefix    = "memory-iterator-without-upper-bound-filters-by-prefix"
+	sigPrevFirst = "memory-iterator-prev-before-first-revalidates"
+	sigNextEnd   = "memory-iterator-next-past-end-keeps-counting"
+	sigBatchDR   = "memory-batch-deleterange-materialised-at-call-time"
+	sigSnapHas   = "pebble-snapshot-has-missing-key-returns-error"
+)
+
+type Cfg struct{ NilUb, LowerBound, PrevFix, NextClamp bool }
+
+func (c Cfg) Line() string {
+	return "cfg " + b01(c.NilUb) + " " + b01(c.LowerBound) + " " + b01(c.PrevFix) + " " + b01(c.NextClamp)
+}
+
+// probeCfg asks the real db/memory which variant of the four known spots it implements, so that
+// the Lean `Mem` model follows the code (CONVENTIONS §5: "the model follows the code").
+func probeCfg() Cfg {
+	var c Cfg
+	w, _ := NewWorld(memoryBackend())
+	defer w.Dispose()
+	w.Exec(Op{K: "put", Key: []byte{1}, Val: []byte{1}})
+	w.Exec(Op{K: "put", Key: []byte{2}, Val: []byte{2}})
+	c.NilUb = w.Exec(Op{K: "scan", Src: "db", Key: nil, U: true}) == "[01=01,02=02]"
+	c.LowerBound = w.Exec(Op{K: "scan", Src: "db", Key: []byte{1}, U: false}) == "[01=01,02=02]"
+	w.Exec(Op{K: "iter", Src: "db"})
+	w.Exec(Op{K: "first", H: 0})
+	w.Exec(Op{K: "prev", H: 0})
+	c.PrevFix = w.Exec(Op{K: "prev", H: 0}) == "F invalid"
+	w.Exec(Op{K: "seek", H: 0, Key: []byte{3}})
+	w.Exec(Op{K: "next", H: 0})
+	c.NextClamp = w.Exec(Op{K: "prev", H: 0}) == "T 02=02"
+	return c
+}
+
+// ---- running one sequence everywhere ------------------------------------------------------------
+
+type Divergence struct {
+	Sig      string `json:"sig"`
+	Backend  string `json:"backend"`
+	At       int    `json:"at"`
+	Op       string `json:"op"`
+	Contract string `json:"contract_says"`
+	Got      string `json:"backend_says"`
+}
+
+type SeqResult struct {
+	Divs       []Divergence
+	Mismatches []lib.Mismatch
+	Compared   int
+	InContract bool
+	Outs       map[string][]string
+}
+
+type Runner struct {
+	drv  *lib.Driver
+	mu   sync.Mutex // the driver is shared
+	cfg  Cfg
+	disk bool
+}
+
+func parseDrv(s string) (mem, spec string, ok bool) {
+	p := strings.Split(s, " | ")
+	if len(p) != 3 {
+		return s, s, false
+	}
+	return p[0], p[1], p[2] == "1"
+}
+
+func allFF(p []byte) bool {
+	for _, b := range p {
+		if b != 0xff {
+			return false
+		}
+	}
+	return true
+}
+
+func iterClass(p []byte, u bool) string {
+	if u && allFF(p) {
+		return sigNilUB
+	}
+	if !u && len(p) > 0 {
+		return sigPrefix
+	}
+	return ""
+}
+
+// Run executes ops on the three real backends and on the Lean models and compares.
+func (rn *Runner) Run(ops []Op) (*SeqResult, error) {
+	sr := &SeqResult{InContract: true, Outs: map[string][]string{}}
+	// models
+	rn.mu.Lock()
+	ans, err := rn.drv.AskAll(append([]string{"reset"}, lines(ops)...))
+	rn.mu.Unlock()
+	if err != nil {
+		return nil, err
+	}
+	ans = ans[1:]
+	backends := []Backend{memoryBackend(), pebble1Backend(false), pebble2Backend(rn.disk)}
+	type bstate struct {
+		w        *World
+		stopped  bool
+		deadIter map[int]bool
+	}
+	var bst []*bstate
+	for _, b := range backends {
+		w, err := NewWorld(b)
+		if err != nil {
+			return nil, fmt.Errorf("open %s: %w", b.Name, err)
+		}
+		defer w.Dispose()
+		bst = append(bst, &bstate{w: w, deadIter: map[int]bool{}})
+	}
+	iterTaint := map[int]string{} // memory: iterator handle -> known class
+	iterOrigin := map[int]string{} // live iterator handle -> source it was created from
+	orphan := map[int]bool{}       // iterators whose batch / snapshot was closed under them
+	seqTaint := ""
+	nIters := 0
+	for i, o := range ops {
+		memModel, spec, okc := parseDrv(ans[i])
+		if !okc {
+			sr.InContract = false
+		}
+		// classification of this step for db/memory
+		class := ""
+		switch o.K {
+		case "iter", "scan":
+			class = iterClass(o.Key, o.U)
+			if o.K == "iter" {
+				if class != "" {
+					iterTaint[nIters] = class
+				}
+				iterOrigin[nIters] = o.Src
+				nIters++
+			}
+		case "update":
+			for _, in := range o.Inner {
+				if in.K == "scan" && class == "" {
+					class = iterClass(in.Key, in.U)
+				}
+			}
+			if !okc && class == "" {
+				seqTaint, class = sigBatchDR, sigBatchDR
+			}
+		case "put", "del", "delrange", "bwrite":
+			if !okc {
+				seqTaint, class = sigBatchDR, sigBatchDR
+			}
+		case "first", "seek":
+			if t := iterTaint[o.H]; t == sigPrevFirst || t == sigNextEnd {
+				delete(iterTaint, o.H)
+			}
+		case "prev":
+			if !okc {
+				iterTaint[o.H] = sigPrevFirst
+			}
+		case "next":
+			if !okc {
+				iterTaint[o.H] = sigNextEnd
+			}
+		}
+		switch o.K {
+		case "first", "next", "prev", "seek", "value":
+			if t, ok := iterTaint[o.H]; ok {
+				class = t
+			}
+		}
+		skipCross := false
+		switch o.K {
+		case "iclose":
+			delete(iterOrigin, o.H)
+		case "bwrite", "bclose", "sclose":
+			// Pebble: an iterator must be closed before the batch / snapshot it reads from
+			from := fmt.Sprintf("b%d", o.H)
+			if o.K == "sclose" {
+				from = fmt.Sprintf("s%d", o.H)
+			}
+			for h, src := range iterOrigin {
+				if src == from {
+					orphan[h] = true
+					skipCross = true
+				}
+			}
+		case "first", "next", "prev", "seek", "value":
+			if orphan[o.H] {
+				skipCross = true
+			}
+		}
+		if !okc {
+			switch o.K {
+			case "bsize", "value", "close", "get", "has", "sclose", "iclose", "bdelrange":
+				// outside the documented contract (Size after DeleteRange, Value() of an invalid
+				// iterator, handles used after the store was closed): not compared across backends
+				skipCross = true
+			case "iter", "scan", "first", "seek", "next", "prev":
+				if class == "" {
+					skipCross = true
+				}
+			}
+		}
+		for bi, b := range bst {
+			out := b.w.Exec(o)
+			sr.Outs[b.w.name] = append(sr.Outs[b.w.name], out)
+			if bi == 0 {
+				// correspondence: Lean Mem model vs real db/memory (always, also outside the contract)
+				sr.Compared++
+				if out != memModel {
+					sr.Mismatches = append(sr.Mismatches, lib.Mismatch{Sig: "mem-model:" + o.K,
+						Input: map[string]any{"ops": lines(ops[:i+1]), "cfg": rn.cfg}, Model: memModel, Impl: out})
+				}
+			}
+			if b.stopped || skipCross {
+				continue
+			}
+			switch o.K {
+			case "first", "next", "prev", "seek", "value", "iclose":
+				if b.deadIter[o.H] {
+					continue
+				}
+			}
+			sr.Compared++
+			if out == spec {
+				continue
+			}
+			sig := ""
+			if bi == 0 {
+				sig = class
+				if sig == "" {
+					sig = seqTaint
+				}
+			} else if o.K == "has" && strings.HasPrefix(o.Src, "s") && spec == "false" && out == "err:pebble-notfound" {
+				sig = sigSnapHas
+			}
+			if sig == "" {
+				sig = b.w.name + "-differs-from-contract:" + o.K
+			}
+			sr.Divs = append(sr.Divs, Divergence{Sig: sig, Backend: b.w.name, At: i, Op: o.Line(), Contract: spec, Got: out})
+			switch o.K {
+			case "get", "has", "scan", "bsize", "value":
+				// read-only: the backend's state is still comparable
+			case "first", "next", "prev", "seek":
+				b.deadIter[o.H] = true
+			default:
+				b.stopped = true
+			}
+		}
+	}
+	return sr, nil
+}
+
+func hasSig(sr *SeqResult, sig string) *Divergence {
+	for i := range sr.Divs {
+		if sr.Divs[i].Sig == sig {
+			return &sr.Divs[i]
+		}
+	}
+	return nil
+}
+
+func createsHandle(o Op) bool { return o.K == "iter" || o.K == "newbatch" || o.K == "snap" }
+
+// shrink removes ops (never handle-creating ones: handles are numbered by creation order) while
+// the same Sig still shows up.
+func (rn *Runner) shrink(ops []Op, sig string) []Op {
+	cur := ops
+	if sr, err := rn.Run(cur); err == nil {
+		if d := hasSig(sr, sig); d != nil {
+			cur = cur[:d.At+1]
+		}
+	}
+	for pass := 0; pass < 2; pass++ {
+		for i := len(cur) - 2; i >= 0; i-- {
+			if createsHandle(cur[i]) {
+				continue
+			}
+			cand := append(append([]Op{}, cur[:i]...), cur[i+1:]...)
+			sr, err := rn.Run(cand)
+			if err != nil {
+				return cur
+			}
+			if d := hasSig(sr, sig); d != nil {
+				cur = cand[:d.At+1]
+				if i > len(cur)-1 {
+					i = len(cur) - 1
+				}
+			}
+		}
+	}
+	return cur
+}
+
+type Replay struct {
+	Cfg     Cfg                 `json:"memory_variant"`
+	Lines   []string            `json:"lines"`
+	Ops     []Op                `json:"ops"`
+	Div     *Divergence         `json:"divergence,omitempty"`
+	Outputs map[string][]string `json:"outputs,omitempty"`
+}
+
+var reported sync.Map
+
+// account folds one sequence result into the harness result; new Sigs are shrunk first.
+func (rn *Runner) account(res *lib.Result, ops []Op, sr *SeqResult) {
+	res.Compared(sr.Compared)
+	for _, m := range sr.Mismatches {
+		res.Mismatch(m)
+	}
+	for _, d := range sr.Divs {
+		res.Hit("divergence:" + d.Sig)
+		if _, dup := reported.LoadOrStore(d.Sig, true); dup {
+			continue
+		}
+		small := rn.shrink(ops, d.Sig)
+		rp := Replay{Cfg: rn.cfg, Lines: lines(small), Ops: small}
+		what := fmt.Sprintf("%s: op %q: contract says %q, %s says %q", d.Sig, d.Op, d.Contract, d.Backend, d.Got)
+		if sr2, err := rn.Run(small); err == nil {
+			if d2 := hasSig(sr2, d.Sig); d2 != nil {
+				rp.Div, rp.Outputs = d2, sr2.Outs
+				what = fmt.Sprintf("after %d ops, %q: contract (Lean Spec) says %q, %s says %q", d2.At, d2.Op, d2.Contract, d2.Backend, d2.Got)
+			}
+		}
+		res.Violate(lib.Violation{Sig: d.Sig, What: what, Replay: rp})
+	}
+}
+
+func hitOps(res *lib.Result, ops []Op) {
+	for _, o := range ops {
+		k := o.K
+		switch o.K {
+		case "get", "has", "iter", "scan":
+			k += ":" + o.Src[:1]
+		}
+		res.Hit("op:" + k)
+		if o.K == "iter" || o.K == "scan" {
+			switch {
+			case o.U && len(o.Key) == 0:
+				res.Hit("bounds:empty-prefix+ub")
+			case o.U && allFF(o.Key):
+				res.Hit("bounds:all-ff-prefix+ub")
+			case o.U && o.Key[len(o.Key)-1] == 0xff:
+				res.Hit("bounds:ff-terminated-prefix+ub")
+			case o.U:
+				res.Hit("bounds:prefix+ub")
+			case len(o.Key) == 0:
+				res.Hit("bounds:all-keys")
+			default:
+				res.Hit("bounds:lower-bound-only")
+			}
+		}
+		if (o.K == "put" || o.K == "bput") && len(o.Val) == 0 {
+			res.Hit("empty-value")
+		}
+		if (o.K == "put" || o.K == "bput" || o.K == "get") && len(o.Key) == 0 {
+			res.Hit("empty-key")
+		}
+		if o.K == "update" {
+			res.Hit(fmt.Sprintf("update:idx=%v,fail=%v", o.Idx, o.Fail))
+		}
+	}
+}
+
+func hitOutputs(res *lib.Result, sr *SeqResult) {
+	for _, o := range sr.Outs["memory"] {
+		switch {
+		case o == "panic", o == "notfound", o == "err:cb", o == "err:closed", o == "F invalid", o == "[]":
+			res.Hit("out:" + o)
+		case strings.HasPrefix(o, "T "):
+			res.Hit("out:positioned-valid")
+		}
+	}
+	if sr.InContract {
+		res.Hit("sequence:inside-contract")
+	} else {
+		res.Hit("sequence:leaves-contract")
+	}
+}
+
+// ---- directed corpus (DESIGN §7 L5 and the guidance of the task) --------------------------------
+
+func k(bs ...byte) []byte { return bs }
+
+func corpus() [][]Op {
+	seven := []Op{
+		{K: "put", Key: k(0x00), Val: k(1)}, {K: "put", Key: k(0x01, 0x01), Val: k(2)}, {K: "put", Key: k(0x01, 0x02), Val: k(3)},
+		{K: "put", Key: k(0x02), Val: k(4)}, {K: "put", Key: k(0xff), Val: k(5)}, {K: "put", Key: k(0xff, 0xff), Val: k(6)},
+		{K: "put", Key: k(0xff, 0xff, 0x01), Val: k(7)}, {K: "put", Key: nil, Val: nil},
+	}
+	with := func(more ...Op) []Op { return append(append([]Op{}, seven...), more...) }
+	return [][]Op{
+		with(Op{K: "scan", Src: "db", Key: k(0xff, 0xff), U: true}, Op{K: "scan", Src: "db", Key: k(0xff), U: true},
+			Op{K: "scan", Src: "db", Key: nil, U: true, NilB: true}, Op{K: "scan", Src: "db", Key: nil, U: true}),
+		with(Op{K: "scan", Src: "db", Key: k(0x01), U: false}, Op{K: "scan", Src: "db", Key: k(0x01), U: true},
+			Op{K: "scan", Src: "db", Key: k(0x01, 0xff), U: true}),
+		with(Op{K: "iter", Src: "db"}, Op{K: "first"}, Op{K: "prev"}, Op{K: "prev"}, Op{K: "next"}),
+		with(Op{K: "iter", Src: "db"}, Op{K: "seek", Key: k(0xff, 0xff, 0xff)}, Op{K: "prev"}, Op{K: "next"}, Op{K: "next"}, Op{K: "prev"}),
+		with(Op{K: "newbatch"}, Op{K: "bdelrange", Key: nil, End: k(0xff)}, Op{K: "put", Key: k(0x01), Val: k(9)}, Op{K: "bwrite"},
+			Op{K: "scan", Src: "db"}),
+		with(Op{K: "newbatch", Idx: true}, Op{K: "bdelrange", Key: k(0x01), End: nil}, Op{K: "bdelrange", Key: k(0x01), End: nil, NilB: true},
+			Op{K: "scan", Src: "b0"}, Op{K: "delrange", Key: k(0x01), End: nil}, Op{K: "bwrite"}, Op{K: "scan", Src: "db"}),
+		with(Op{K: "get", Src: "db", Key: k(0x02), Fail: true}, Op{K: "get", Src: "db", Key: k(0x03), Fail: true},
+			Op{K: "snap"}, Op{K: "get", Src: "s0", Key: k(0x02), Fail: true}, Op{K: "has", Src: "s0", Key: k(0x03)}, Op{K: "has", Src: "s0", Key: k(0x02)},
+			Op{K: "sclose"}),
+		with(Op{K: "update", Idx: true, Fail: true, Inner: []Op{{K: "put", Key: k(0x05), Val: k(5)}, {K: "delrange", Key: nil, End: k(0xff)}, {K: "get", Key: k(0x05)}, {K: "scan"}}},
+			Op{K: "scan", Src: "db"},
+			Op{K: "update", Idx: false, Fail: true, Inner: []Op{{K: "put", Key: k(0x05), Val: k(5)}, {K: "del", Key: k(0x00)}}},
+			Op{K: "scan", Src: "db"},
+			Op{K: "update", Idx: true, Inner: []Op{{K: "put", Key: k(0x05), Val: k(5)}, {K: "del", Key: k(0x05)}, {K: "put", Key: k(0x00), Val: nil}, {K: "has", Key: k(0x05)}}},
+			Op{K: "scan", Src: "db"}),
+		with(Op{K: "newbatch", Idx: true}, Op{K: "close"}, Op{K: "get", Src: "db", Key: k(0)}, Op{K: "put", Key: k(0), Val: k(0)},
+			Op{K: "bput", Key: k(1), Val: k(1)}, Op{K: "bwrite"}, Op{K: "update", Idx: true, Inner: []Op{{K: "put", Key: k(1), Val: k(1)}}},
+			Op{K: "snap"}, Op{K: "close"}),
+	}
+}
+
+// enumerate iterator positioning: every sequence of `depth` moves over a fixed store, per bound.
+func positionSequences(depth int) [][]Op {
+	base := []Op{{K: "put", Key: k(0x01), Val: k(1)}, {K: "put", Key: k(0x01, 0xff), Val: nil}, {K: "put", Key: k(0x02), Val: k(2)},
+		{K: "put", Key: k(0xff), Val: k(3)}}
+	moves := []Op{{K: "first"}, {K: "next"}, {K: "prev"}, {K: "seek", Key: nil}, {K: "seek", Key: k(0x01, 0xff)}, {K: "seek", Key: k(0x02, 0x00)},
+		{K: "seek", Key: k(0xff, 0xff)}}
+	var all [][]Op
+	for _, bounds := range []Op{{K: "iter", Src: "db"}, {K: "iter", Src: "db", Key: k(0x01), U: true}, {K: "iter", Src: "db", Key: k(0x03), U: true}} {
+		// one sequence per first move; the remaining moves are enumerated inside it with fresh iterators
+		var rec func(prefix []int)
+		var seqs [][]int
+		rec = func(prefix []int) {
+			if len(prefix) == depth {
+				seqs = append(seqs, append([]int{}, prefix...))
+				return
+			}
+			for m := range moves {
+				rec(append(prefix, m))
+			}
+		}
+		rec(nil)
+		const perWorld = 200
+		for s := 0; s < len(seqs); s += perWorld {
+			ops := append([]Op{}, base...)
+			h := 0
+			for _, sq := range seqs[s:min(s+perWorld, len(seqs))] {
+				ops = append(ops, bounds)
+				for _, m := range sq {
+					mv := moves[m]
+					mv.H = h
+					ops = append(ops, mv)
+				}
+				ops = append(ops, Op{K: "iclose", H: h})
+				h++
+			}
+			all = append(all, ops)
+		}
+	}
+	return all
+}
+
+// every prefix x withUpperBound x source over one store
+func boundsSequences() [][]Op {
+	var ops []Op
+	for _, key := range keyAlphabet {
+		ops = append(ops, Op{K: "put", Key: key, Val: key})
+	}
+	ops = append(ops, Op{K: "snap"}, Op{K: "newbatch", Idx: true}, Op{K: "bput", H: 0, Key: k(0x01, 0x02), Val: nil}, Op{K: "bdel", H: 0, Key: k(0xff)})
+	for _, p := range append(append([][]byte{}, prefixAlphabet...), boundAlphabet...) {
+		for _, u := range []bool{false, true} {
+			for _, src := range []string{"db", "s0", "b0"} {
+				ops = append(ops, Op{K: "scan", Src: src, Key: p, U: u})
+			}
+		}
+	}
+	return [][]Op{ops}
+}
+
+func fixOps(ops []Op) []Op {
+	// corpus entries leave handle numbers 0
+	return ops
+}
+
+// ---- main -------------------------------------------------------------------------------------
+
+func main() {
+	f := lib.ParseFlags()
+	res := lib.NewResult("op sequences of the db.KeyValueStore interface over a 16-key alphabet (empty key, keys extending keys, " +
+		"0xff-terminated / all-0xff prefixes, empty values) run on db/memory, db/pebble, db/pebblev2 and the Lean Mem/Spec models; " +
+		"non-trivial = distinct sequence with >= 8 ops that uses a batch, snapshot or iterator")
+	r := lib.NewRNG(f.Seed)
+	defer os.Remove(scratchRoot) // only succeeds when empty
+	drv, err := lib.StartDriver(f.Driver)
+	if err != nil {
+		res.Note("driver: %v", err)
+		lib.Finish(f, res)
+	}
+	defer drv.Close()
+
+	// A. dbutils.UpperBound against the model + its defining property on the real function
+	upperBoundPhase(f, r, drv, res)
+
+	// B. which variant of db/memory is this?
+	cfg := probeCfg()
+	res.Note("db/memory variant probed on the real code: %+v", cfg)
+	if a, err := drv.Ask(cfg.Line()); err != nil || a != "ok" {
+		res.Note("driver rejected cfg: %v %q", err, a)
+		lib.Finish(f, res)
+	}
+	rn := &Runner{drv: drv, cfg: cfg}
+
+	runOne := func(ops []Op, label string) {
+		sr, err := rn.Run(ops)
+		if err != nil {
+			res.Note("run: %v", err)
+			return
+		}
+		nontrivial := false
+		for _, o := range ops {
+			if createsHandle(o) || o.K == "update" {
+				nontrivial = true
+			}
+		}
+		res.Case(strings.Join(lines(ops), "\n"), nontrivial && len(ops) >= 8)
+		res.Hit("sequences:" + label)
+		hitOps(res, ops)
+		hitOutputs(res, sr)
+		rn.account(res, ops, sr)
+		res.Sample(6, map[string]any{"kind": label, "ops": lines(ops[:min(len(ops), 14)]), "memory": sr.Outs["memory"][:min(len(ops), 14)]})
+	}
+
+	if f.Replay != "" {
+		var wrap struct {
+			Replay Replay `json:"replay"`
+		}
+		b, err := os.ReadFile(f.Replay)
+		if err == nil {
+			err = json.Unmarshal(b, &wrap)
+		}
+		if err != nil || len(wrap.Replay.Ops) == 0 {
+			res.Note("cannot read replay %s: %v", f.Replay, err)
+			lib.Finish(f, res)
+		}
+		runOne(wrap.Replay.Ops, "replay")
+		lib.Finish(f, res)
+	}
+
+	// C. directed corpus, exhaustive small spaces
+	for _, ops := range corpus() {
+		runOne(ops, "corpus")
+	}
+	for _, ops := range boundsSequences() {
+		runOne(ops, "all-bounds")
+	}
+	for _, ops := range positionSequences(f.Scale(3, 4)) {
+		runOne(ops, "all-position-sequences")
+	}
+
+	// D. random sequences; every 10th on a real directory
+	n := f.Scale(700, 20000)
+	for i := 0; i < n; i++ {
+		rr := r.Fork(uint64(i))
+		rn.disk = i%10 == 0
+		allowF5 := i%7 == 3
+		wild := i%3 == 1
+		ops := genSequence(rr, rr.Range(8, 70), allowF5, wild)
+		label := "random"
+		if allowF5 {
+			label = "random+store-changes-under-pending-deleterange"
+		}
+		runOne(ops, label)
+	}
+	rn.disk = false
+
+	// E. thorough: one writer, concurrent snapshot / iterator readers
+	if f.Thorough() {
+		concurrencyPhase(f, r, res)
+	} else {
+		concurrencySmoke(r, res)
+	}
+	lib.Finish(f, res)
+}
 
 func genKey(r *lib.RNG) []byte {
 	n := r.Intn(4)
@@ -20,21 +606,10 @@ func genKey(r *lib.RNG) []byte {
 	return b
 }
 
-func main() {
-	f := lib.ParseFlags()
-	res := lib.NewResult("prefixes and keys over the byte alphabet {00,01,02,fe,ff}, length 0..3; " +
-		"non-trivial = distinct (prefix, key) pair with a non-empty prefix")
-	r := lib.NewRNG(f.Seed)
-	drv, err := lib.StartDriver(f.Driver)
-	if err != nil {
-		res.Note("driver: %v", err)
-		lib.Finish(f, res)
-	}
-	defer drv.Close()
-
+func upperBoundPhase(f lib.Flags, r *lib.RNG, drv *lib.Driver, res *lib.Result) {
 	n := f.Scale(2000, 50000)
 	for i := 0; i < n; i++ {
-		p, k := genKey(r), genKey(r)
+		p, key := genKey(r), genKey(r)
 		ub := dbutils.UpperBound(p)
 		implS := "nil"
 		if ub != nil {
@@ -49,20 +624,16 @@ func main() {
 		if modelS != implS {
 			res.Mismatch(lib.Mismatch{Sig: "upperBound", Input: hx(p), Model: modelS, Impl: implS})
 		}
-		// property oracle on the real function: prefix membership == range membership
-		inRange := bytes.Compare(p, k) <= 0 && (ub == nil || bytes.Compare(k, ub) < 0)
-		if bytes.HasPrefix(k, p) != inRange {
+		inRange := bytes.Compare(p, key) <= 0 && (ub == nil || bytes.Compare(key, ub) < 0)
+		if bytes.HasPrefix(key, p) != inRange {
 			res.Violate(lib.Violation{Sig: "upperbound-range-differs-from-prefix",
-				What:   fmt.Sprintf("UpperBound(%x)=%x: key %x prefix=%v inRange=%v", p, ub, k, bytes.HasPrefix(k, p), inRange),
-				Replay: map[string]string{"prefix": hx(p), "key": hx(k)}})
+				What:   fmt.Sprintf("UpperBound(%x)=%x: key %x prefix=%v inRange=%v", p, ub, key, bytes.HasPrefix(key, p), inRange),
+				Replay: map[string]string{"prefix": hx(p), "key": hx(key)}})
 		}
-		res.Case(hx(p)+"/"+hx(k), len(p) > 0)
 		if ub == nil {
 			res.Hit("ub=nil")
 		} else {
 			res.Hit(fmt.Sprintf("ub-len=%d", len(ub)))
 		}
-		res.Sample(5, map[string]string{"prefix": hx(p), "key": hx(k), "ub": implS})
 	}
-	lib.Finish(f, res)
 }
